@@ -2,14 +2,15 @@ package c20
 
 import (
 	"fmt"
+	"math/rand"
 	"os"
 	"path/filepath"
 	"sort"
+	"strings"
 	"testing"
 	"time"
 
 	"github.com/spikeekips/mitum/base"
-	"github.com/spikeekips/mitum/isaac"
 	"github.com/spikeekips/mitum/util"
 	"verifharness/c19/dbrig"
 	"verifharness/vlib"
@@ -38,7 +39,15 @@ type run struct {
 	othernode base.LocalNode              // a second node which signs block maps
 	hist      map[base.Height]*heightInfo // write history of the blocks in the store
 	lasthist  string                      // fingerprint of the newest block's write history
-	fullperm  bool                        // read the permanent database over all keys and hashes too
+	fullperm  bool                        // read the permanent database over all hashes too
+
+	// the running instance: what it did since it was opened
+	reopenPct    int                    // a quiescent point is a reopen point with this probability (100: every one)
+	sinceReopen  int                    // script steps (commit / merge / removal) since the instance was opened
+	readKeys     map[string]bool        // state keys the running instance was asked about since it was opened
+	liveTemps    map[base.Height]string // blocks written by the running instance (their temps carry the writer's cache): class of the writer's state cache
+	writerCaches bool                   // a block write database was given a state cache in this chain
+	lastwcache   string                 // class of the writer's state cache of the newest block
 }
 
 func (s *run) log(format string, a ...any) { s.script = append(s.script, fmt.Sprintf(format, a...)) }
@@ -46,8 +55,8 @@ func (s *run) log(format string, a ...any) { s.script = append(s.script, fmt.Spr
 // readAll is the full read set through the Center (every accessor, objects
 // and *Bytes, plus signer and signature of every block map object), the read
 // set of the permanent database taken directly (Last* accessors, block maps and
-// suffrage proofs of every height; thorough tier: every key and hash too) and
-// the pool reads.
+// suffrage proofs of every height, every state key; thorough tier: every
+// operation hash too) and the pool reads.
 func (s *run) readAll() dbrig.ReadSet {
 	rs := s.st.Read(s.gen.U)
 	readSigns(rs, "", dbrig.DatabaseReader(s.st.Center), s.gen.U.MaxHeight)
@@ -55,7 +64,7 @@ func (s *run) readAll() dbrig.ReadSet {
 	pu := s.gen.U
 	if !s.fullperm {
 		pu = &dbrig.Universe{
-			Keys:         map[string]struct{}{isaac.SuffrageStateKey: {}, isaac.NetworkPolicyStateKey: {}},
+			Keys:         s.gen.U.Keys,
 			InStateOps:   map[string]util.Hash{},
 			KnownOps:     map[string]util.Hash{},
 			MaxHeight:    s.gen.U.MaxHeight,
@@ -75,7 +84,82 @@ func (s *run) readAll() dbrig.ReadSet {
 		rs[q] = a
 	}
 
+	for k := range s.gen.U.Keys {
+		s.readKeys[k] = true
+	}
+
 	return rs
+}
+
+func stepsBucket(n int) string {
+	switch {
+	case n < 1:
+		return "0"
+	case n < 3:
+		return "1-2"
+	case n < 6:
+		return "3-5"
+	default:
+		return "6+"
+	}
+}
+
+func (s *run) permCacheClass() string {
+	switch c := s.st.Cfg.PermCache; {
+	case c < 1:
+		return "off"
+	case c == 1:
+		return "1"
+	case c < 16:
+		return "small"
+	default:
+		return "large"
+	}
+}
+
+// quiescent is one quiescent point of the script: a reopen point (always in
+// the worlds which reopen everywhere, else with the world's probability), or
+// the running instance is only asked the full read set (as a node serving
+// reads does) and keeps running, so that what it holds in memory - the state
+// and operation caches of the permanent database, of the temps made from its
+// own block writes and of the pool - has a history when it is closed later.
+func (s *run) quiescent(rng *rand.Rand, step string) bool {
+	s.sinceReopen++
+
+	if s.reopenPct >= 100 || rng.Intn(100) < s.reopenPct {
+		return s.reopenCheck(step)
+	}
+
+	w := witness{Chain: s.idx, Config: s.st.Cfg, Script: append([]string{}, s.script...), Blocks: len(s.chain.Blocks)}
+	if s.r.Guard("read-while-running", w, func() { _ = s.readAll() }) {
+		return false
+	}
+
+	s.log("(read, no reopen)")
+	s.r.Count("quiescent_points_read_without_reopen", 1)
+
+	return true
+}
+
+// cacheComponent: a State read which differs while the StateBytes read of the
+// same key agrees in both instances differs in the object held in memory only;
+// the component then says whether any state cache was configured.
+func (s *run) cacheComponent(q string, before, after dbrig.ReadSet) string {
+	kind := dbrig.Kind(q)
+	if strings.TrimPrefix(kind, "perm.") != "State" {
+		return ""
+	}
+
+	bq := kind + "Bytes" + q[len(kind):]
+	if before[bq] != after[bq] {
+		return ""
+	}
+
+	if s.st.Cfg.PermCache > 0 || s.writerCaches {
+		return ":object-only:state-cache-on"
+	}
+
+	return ":object-only:state-cache-off"
 }
 
 func (s *run) repeatedByHeight() map[string][]string {
@@ -129,6 +213,16 @@ func (s *run) reopenCheck(step string) bool {
 
 	r.Count("reopen_points", 1)
 	r.Count("reopen_after_"+step, 1)
+	r.Count("reopen_after_running_steps_"+stepsBucket(s.sinceReopen), 1)
+
+	ranfor := stepsBucket(s.sinceReopen)
+	s.sinceReopen = 0
+	s.liveTemps = map[base.Height]string{}
+	s.readKeys = map[string]bool{}
+
+	for k := range s.gen.U.Keys { // the read after reopening
+		s.readKeys[k] = true
+	}
 
 	permblocks := len(s.chain.Blocks) - len(temps)
 	lastproofinperm := false
@@ -143,8 +237,8 @@ func (s *run) reopenCheck(step string) bool {
 		r.Count("reopen_points_with_repeated_setters_in_store", 1)
 	}
 
-	r.Case(fmt.Sprintf("%s/temps=%d/perm=%d/proofinperm=%v/pool=%d/newest-block-written=%s",
-		step, len(temps), permblocks, lastproofinperm, len(s.pool.Ops), s.lasthist))
+	r.Case(fmt.Sprintf("%s/temps=%d/perm=%d/proofinperm=%v/pool=%d/newest-block-written=%s/instance-ran-steps=%s/perm-cache=%s/writer-cache=%s",
+		step, len(temps), permblocks, lastproofinperm, len(s.pool.Ops), s.lasthist, ranfor, s.permCacheClass(), s.lastwcache))
 
 	ms := dbrig.DiffExact(before, after)
 	if len(ms) < 1 {
@@ -154,7 +248,8 @@ func (s *run) reopenCheck(step string) bool {
 	groups := map[string][]dbrig.Mismatch{}
 
 	for _, m := range ms {
-		sig := "reopen:" + dbrig.Kind(m.Query) + ":" + m.Class + s.historyOf(m.Query, before[m.Query], after[m.Query])
+		sig := "reopen:" + dbrig.Kind(m.Query) + ":" + m.Class + s.historyOf(m.Query, before[m.Query], after[m.Query]) +
+			s.cacheComponent(m.Query, before, after)
 		groups[sig] = append(groups[sig], m)
 	}
 
@@ -165,6 +260,60 @@ func (s *run) reopenCheck(step string) bool {
 	}
 
 	return true
+}
+
+// writerCache draws the size of the state cache the block write database of a
+// block with nstates states is given (launch gives every block writer one):
+// unset, 1, smaller than the block (entries are evicted), exactly the block,
+// larger.
+func writerCache(rng *rand.Rand, nstates int) (int, string) {
+	var size int
+
+	switch p := rng.Intn(100); {
+	case p < 20:
+		return 0, "unset"
+	case p < 35:
+		size = 1
+	case p < 60:
+		size = 1 + rng.Intn(max(1, nstates-1))
+	case p < 75:
+		size = max(1, nstates)
+	case p < 90:
+		size = nstates + 1 + rng.Intn(8)
+	default:
+		size = 4096
+	}
+
+	switch {
+	case size < nstates:
+		return size, "evicting"
+	case size == nstates:
+		return size, "exact"
+	default:
+		return size, "roomy"
+	}
+}
+
+// countMerged counts the temps which left the Center for the permanent
+// database: made by the running instance from its own block write (they carry
+// the writer's state cache into the merge) or reloaded from storage.
+func (s *run) countMerged(before []base.Height) {
+	after := map[base.Height]bool{}
+	for _, h := range s.st.Temps() {
+		after[h] = true
+	}
+
+	for _, h := range before {
+		if after[h] {
+			continue
+		}
+
+		if class, ok := s.liveTemps[h]; ok {
+			s.r.Count("temps_merged_made_by_running_instance_writer_cache_"+class, 1)
+		} else {
+			s.r.Count("temps_merged_reloaded_from_storage", 1)
+		}
+	}
 }
 
 func countHistory(r *vlib.Run, h *history, kept string) {
@@ -214,8 +363,8 @@ func runChain(r *vlib.Run, env *dbrig.Env, idx int, onFile bool) {
 	rng := r.Rand(1, idx)
 
 	cfg := dbrig.StoreConfig{
-		PermCache: []int{0, 2, 64, 4096}[rng.Intn(4)],
-		TempCache: []int{0, 3, 4096}[rng.Intn(3)],
+		PermCache: []int{0, 1, 2, 64, 4096}[rng.Intn(5)],
+		TempCache: []int{0, 3, 4096}[rng.Intn(3)], // rival writes; every committed block draws its own (writerCache)
 		Pool:      true,
 		PoolCache: []int{0, 4, 4096}[rng.Intn(3)],
 	}
@@ -239,7 +388,11 @@ func runChain(r *vlib.Run, env *dbrig.Env, idx int, onFile bool) {
 		chain: &dbrig.Chain{}, pool: dbrig.NewPoolContent(rng),
 		othernode: base.RandomLocalNode(), hist: map[base.Height]*heightInfo{},
 		lasthist: "none", fullperm: r.Thorough(),
+		reopenPct: []int{100, 35, 12, 100, 20}[idx%5], readKeys: map[string]bool{}, liveTemps: map[base.Height]string{}, lastwcache: "none",
 	}
+
+	r.Count(fmt.Sprintf("chains_reopening_at_%d_percent_of_quiescent_points", s.reopenPct), 1)
+	r.Count("chains_permanent_state_cache_"+s.permCacheClass(), 1)
 
 	if onFile {
 		r.Count("chains_on_file_storage", 1)
@@ -296,7 +449,29 @@ func runChain(r *vlib.Run, env *dbrig.Env, idx int, onFile bool) {
 
 		b := s.gen.Next(s.chain, dbrig.RandomOpt(rng, maxStates, sufEvery))
 		h := s.planHistory(rng, b)
-		s.log("commit h=%d states=%d ops=%d suffrage=%v policy=%v: %s", b.Height, len(b.States), len(b.Ops), b.Proof != nil, b.Policy != nil, h)
+
+		wsize, wclass := writerCache(rng, len(b.States))
+		st.Cfg.TempCache = wsize
+		s.writerCaches = s.writerCaches || wsize > 0
+		s.lastwcache = wclass
+		r.Count("block_writes_state_cache_"+wclass, 1)
+
+		if st.Cfg.PermCache > 0 {
+			for j := range b.States {
+				if !s.readKeys[b.States[j].Key()] {
+					continue
+				}
+
+				r.Count("state_rewrites_of_keys_read_earlier_by_running_instance", 1)
+
+				if wclass == "evicting" {
+					r.Count("state_rewrites_of_keys_read_earlier_in_block_larger_than_writer_cache", 1)
+				}
+			}
+		}
+
+		s.log("commit h=%d states=%d ops=%d suffrage=%v policy=%v writer-state-cache=%d(%s): %s",
+			b.Height, len(b.States), len(b.Ops), b.Proof != nil, b.Policy != nil, wsize, wclass, h)
 
 		kept, err := s.commitWithHistory(b, h)
 		if err != nil {
@@ -310,16 +485,19 @@ func runChain(r *vlib.Run, env *dbrig.Env, idx int, onFile bool) {
 		countHistory(r, h, kept)
 
 		s.chain.Append(b)
+		s.liveTemps[b.Height] = wclass
 		r.Count("blocks_committed", 1)
 
-		if !s.reopenCheck("commit") {
+		if !s.quiescent(rng, "commit") {
 			return
 		}
 
 		switch p := rng.Intn(100); {
 		case p < 35:
+			tempsbefore := st.Temps()
 			merged, err := st.MergeOne()
 			s.log("merge-one -> %v", merged)
+			s.countMerged(tempsbefore)
 
 			if err != nil {
 				r.Violation("merge-one:error", err.Error(), witness{Chain: idx, Script: s.script})
@@ -327,11 +505,13 @@ func runChain(r *vlib.Run, env *dbrig.Env, idx int, onFile bool) {
 				return
 			}
 
-			if !s.reopenCheck("merge-one") {
+			if !s.quiescent(rng, "merge-one") {
 				return
 			}
 		case p < 50:
 			s.log("merge-all")
+
+			tempsbefore := st.Temps()
 
 			if err := st.Center.MergeAllPermanent(); err != nil {
 				r.Violation("merge-all:error", err.Error(), witness{Chain: idx, Script: s.script})
@@ -339,7 +519,9 @@ func runChain(r *vlib.Run, env *dbrig.Env, idx int, onFile bool) {
 				return
 			}
 
-			if !s.reopenCheck("merge-all") {
+			s.countMerged(tempsbefore)
+
+			if !s.quiescent(rng, "merge-all") {
 				return
 			}
 		case p < 58:
@@ -368,9 +550,15 @@ func runChain(r *vlib.Run, env *dbrig.Env, idx int, onFile bool) {
 				s.lasthist = "removed"
 			}
 
-			if !s.reopenCheck("remove-blocks") {
+			if !s.quiescent(rng, "remove-blocks") {
 				return
 			}
+		}
+	}
+
+	if s.sinceReopen > 0 {
+		if !s.reopenCheck("end-of-script") {
+			return
 		}
 	}
 
@@ -383,16 +571,17 @@ func TestC20(t *testing.T) {
 	r := vlib.Start(t, "C20", vlib.LevelFault)
 	defer r.Finish()
 
-	r.SetRule("case = one quiescent point of a generated script (empty store, after every block commit, after every merge into the permanent store, after block removal): the full read set taken immediately before closing the storage and immediately after reopening it, compared field by field and byte for byte. Read set = every object read and every *Bytes tuple of the Center over all keys / hashes / heights of the scenario, signer+signature of every block map object answered, the same accessors of the permanent database asked directly (perm.*: Last* accessors, block maps and suffrage proofs of every height, suffrage / policy state; thorough tier every key and hash), and every pool read over the inserted operations, proposals, ballots, expel operations. " +
+	r.SetRule("case = one reopen point of a generated script; quiescent points are: empty store, after every block commit, after every merge into the permanent store, after block removal, end of script. 2 of 5 worlds reopen at every quiescent point; the others at 35% / 20% / 12% of them (and at the end of the script), and at the other quiescent points the running instance is only asked the full read set and keeps running, so that the instance which is closed has served reads and written / merged blocks for up to the whole script and its caches have a history (keys read from the permanent database before a later block rewrites them; temps made from the instance's own block writes carrying the writer's state cache into the merge). At a reopen point: the full read set taken immediately before closing the storage and immediately after reopening it, compared field by field and byte for byte. Read set = every object read and every *Bytes tuple of the Center over all keys / hashes / heights of the scenario, signer+signature of every block map object answered, the same accessors of the permanent database asked directly (perm.*: Last* accessors, block maps and suffrage proofs of every height, every state key; thorough tier every operation hash), and every pool read over the inserted operations, proposals, ballots, expel operations. " +
 		"Every block is written through a generated write history of its BlockWriteDatabase: 25% every setter once in the importer's order; else SetBlockMap called 1-3 times (the same manifest signed again by the local node or by another node), SetStates in 1-4 parts plus optionally states handed over again (identical, or another valid state of the same key and height), SetOperations in 1-3 parts plus optionally an operation again, SetSuffrageProof once or twice (another proof of the same suffrage state); calls ordered as the importer does (block map, data, proof, Write), as the block writer does (data, Write, block map, proof) or shuffled with only the data calls before Write; 40% of these with the calls of each phase released together from one goroutine each; 12% of the blocks preceded by a rival write database of the same height which is written and abandoned or cancelled. Which of two calls the database keeps is not judged, only that the running and the reopened instance agree. " +
-		"distinct = (step kind, temps, blocks in permanent store, whether a suffrage proof is in the permanent store, pool size, shape of the newest block's write history: order style, sequential/concurrent, number of calls of every setter, repeats/variants)")
+		"Caches: state / in-state-operation cache of the permanent database per world off, 1, 2, 64 or 4096 entries; the state cache given to every block write database (SetStateCache) drawn per block: unset, 1, smaller than the number of states of the block (entries are evicted), exactly that number, larger; pool operation cache per world 0, 4, 4096. " +
+		"distinct = (step kind, temps, blocks in permanent store, whether a suffrage proof is in the permanent store, pool size, shape of the newest block's write history: order style, sequential/concurrent, number of calls of every setter, repeats/variants; how many script steps the closed instance had been running; class of the permanent state cache; class of the newest block's writer cache)")
 	r.Assume("close = leveldb Storage.Close with every in-memory object dropped; reopen = new Storage on the same goleveldb storage (memory; thorough tier also file), new LeveldbPermanent, Center and TempPool as launch.LoadDatabase builds them")
-	r.Exhaustive(true) // every quiescent point of every script is a reopen point
+	r.Exhaustive(false) // 2 of 5 worlds reopen at every quiescent point of their script; the others at a drawn subset, to close instances which have been running for long
 
 	env := dbrig.NewEnv()
 	env.AddPoolHinters()
 
-	n := r.N(24, 240)
+	n := r.N(40, 360)
 
 	vlib.Parallel(n, 8, func(i int) {
 		onFile := r.Thorough() && i%4 == 0
@@ -407,6 +596,12 @@ func TestC20(t *testing.T) {
 
 	if r.Counter("reopen_points_with_repeated_setters_in_store") < 1 || r.Counter("histories_concurrent") < 1 {
 		r.Inconclusive("no reopen point with a block written by repeated / concurrent setter calls was reached")
+	}
+
+	if r.Counter("reopen_after_running_steps_3-5")+r.Counter("reopen_after_running_steps_6+") < 1 ||
+		r.Counter("temps_merged_made_by_running_instance_writer_cache_evicting") < 1 ||
+		r.Counter("state_rewrites_of_keys_read_earlier_by_running_instance") < 1 {
+		r.Inconclusive("no instance was closed after a long run / after merging a temp whose writer cache had evicted entries / after a rewrite of a key it had read")
 	}
 }
 
